@@ -175,3 +175,23 @@ def gen_runs(rng, tier, cleanups=("n",), namings=None, sfxs=(b"log",), bg=False,
         if rng.random() < 0.5:
             ops.append("K:%d" % rng.choice([1, 1, 5, 3600]))
     return "flw %d 0 ; %s" % (t0, " ".join(ops))
+
+
+def same_second_rotations(toks):
+    """two events that can rotate (a write, a trigger, a start) not separated by a clock tick"""
+    n = 0
+    for t in toks:
+        if t.startswith("K:") and not t.startswith("K:0"):
+            n = 0
+        elif t[0] in "WTB":
+            n += 1
+            if n >= 2:
+                return True
+    return False
+
+
+def s1_class(cfg_fields, toks):
+    """known finding S1: time-stamp naming, a suffix that sorts after 'restart-', several rotations within one second"""
+    c = cfg_fields
+    return (c[7].split(".")[0] in ("ts", "tsd", "cu") and c[3] != "~" and bytes.fromhex(c[3]) > b"restart-"
+            and same_second_rotations(toks))
